@@ -333,6 +333,11 @@ func ruleStoreAdmission(c *Ctx) {
 	getState := F(P.Method("server/core", "StoreInfo", "GetState"))
 	found, _ := guardControlsReturn(check, relMatcher("==", resultOfCall(getState), isConstInt(2)), func(r *ssa.Return) bool { return !isNilConst(retVal(r, 0)) })
 	c.Check(found, rule, "checkStore", "answers an error for a tombstone store", P.pos(check.Pos()), "")
+	// …on the tombstone edge itself (not on its complement)
+	c.atomRejects(rule, check, "state == Tombstone ⇒ error answer", relMatcher("==", resultOfCall(getState), isConstInt(2)), func(r *ssa.Return) bool {
+		v := retVal(r, 0)
+		return v != nil && !isNilConst(v)
+	})
 	rcPut := F(P.Method("server/cluster", "RaftCluster", "PutStore"))
 	rcHB := F(P.Method("server/cluster", "RaftCluster", "HandleStoreHeartbeat"))
 	for _, h := range []struct {
